@@ -8,11 +8,9 @@ open Verif.Props.C06
 #print axioms attr_escape
 #print axioms cdata_chars
 #print axioms text_ws
-#print axioms xml_infoset_partial
-#print axioms xml_infoset_counterexample
-#print axioms keep_ws_counterexample
+#print axioms cdend_escape
+#print axioms xml_infoset
 #print axioms keep_ws_never_removed
 #print axioms comments_only_removed
-#print axioms xml_wellformed_partial
+#print axioms xml_wellformed
 #print axioms xml_nesting
-#print axioms xml_wellformed_counterexample
